@@ -264,8 +264,11 @@ class Run:
         ev = {"property_id": self.prop, "tier": self.tier, "seed": self.seed, "level": level, "coverage": cov,
               "assumptions": sorted(set(self.assumptions + P.PROPS[self.prop].get("assumptions", []))),
               "wall_s": round(wall, 2), "violations": len(new_violations)}
-        os.makedirs(os.path.join(VERIF, "evidence"), exist_ok=True)
-        with open(os.path.join(VERIF, "evidence", f"{self.prop}.json"), "w") as f:
+        # /verif/evidence is what gets committed: it is written only by runs against /repo itself; runs of the development tools
+        # against another tree (VERIF_REPO=..., seeded or harmless patches) write next to their scratch data instead
+        edir = os.path.join(VERIF, "evidence") if os.path.realpath(self.repo.root) == "/repo" else os.path.join("/tmp", "verif-evidence-other-trees")
+        os.makedirs(edir, exist_ok=True)
+        with open(os.path.join(edir, f"{self.prop}.json"), "w") as f:
             json.dump(ev, f, indent=1, default=str)
         for k in self.known:
             print(f"KNOWN-FINDING: property={self.prop} {k}")
